@@ -100,6 +100,11 @@ def gen(tier, seed):
             yield prop, kind, s, None
         yield "ATTENDEE", "cal-address", "mailto:a@example.com", s
         yield "SUMMARY", "text", s[::-1], s
+    # long values: every delimiter / escape character at every offset around the first and second fold point (a character of the value
+    # next to a fold must not be taken for part of the fold)
+    for ch in sorted(set(ALPHA) | {"\r", "\t", " "}):
+        for k in list(range(50, 80)) + list(range(126, 152)):
+            yield "SUMMARY", "text", "x" * k + ch + "y" * 12, None
     for s in strings[:600] + ptokens:
         for t in ptokens + [None]:
             pv = s if t is None else t + s
